@@ -64,6 +64,7 @@ def snapshot_check(walk, routes, fp=False, transparent=False):
             n += snap_suite.judge_sim_path_covered(v, scen, impl, model, "snapshot", D1)
         if routes:
             n += snap_suite.run_two_routes(v, tier, seed)
+            n += snap_suite.run_clock_routes(v, tier, seed)
         if fp:
             n += snap_suite.fp_probe(v, tier, seed)
         if transparent:
@@ -185,18 +186,18 @@ PROPS = {
                            extra=lambda rng, tier: [(f"cb{i}", sim_suite.gen_crash_burst(rng)) for i in range(150 if tier == "quick" else 3000)])]},
     "C15": {"ready": True, "replay": sim_replay, "suites": [snapshot_check(walk=0, routes=True, fp=True)]},
     "C17": {"ready": True, "replay": sim_replay,
-            "partial": "whole-run invariants are proved for the per-process logs/counters (LogInv) and the global trace (TraceInv: ids, network counters, traffic, single fate exactly for duplication-free sends, at most 3 otherwise); the times recorded in the global trace are a theorem (trace_times_sorted); the times in the per-process event logs and the per-copy fate under duplication are judged by the monitor and the bit-exact correspondence",
+            "partial": "whole-run invariants are proved for the per-process logs/counters (LogInv) and the global trace (TraceInv: ids, network counters, traffic, single fate exactly for duplication-free sends, at most 3 otherwise); the times recorded in the global trace and in the per-process event logs are theorems (trace_times_sorted, LogTimeInv, step_log_times); the per-copy fate under duplication is judged by the monitor and the bit-exact correspondence",
             "suites": [sim("sim_logs", "C17", dict(p_fault=0.5, p_crash=0.4, p_link=0.3, nodes=(2, 3), procs=(2, 4)),
                            nontrivial=lambda st: st["received"] and (st["dropped"] or st["crash"]),
                            extra=lambda rng, tier: [(f"cb{i}", sim_suite.gen_crash_burst(rng)) for i in range(150 if tier == "quick" else 3000)])]},
-    "C18": {"ready": True, "replay": auto_replay, "suites": [lambda v, tier, seed: py_suite.run(v, tier, seed), py_suite.copy_isolation, py_suite.restore_probe, py_suite.sim_twin],
+    "C18": {"ready": True, "replay": auto_replay, "suites": [lambda v, tier, seed: py_suite.run(v, tier, seed), py_suite.copy_isolation, py_suite.restore_probe, py_suite.order_probe, py_suite.unpicklable_probe, py_suite.sim_twin],
             "partial": "pickle, deepcopy, PyO3 conversions and JSON text are runtime behaviour covered by the correspondence runs only"},
     "C19": {"ready": True, "replay": mc_checks.replay, "suites": [pred_check],
             "partial": "state_depth_current_run is proved only in its sound half (finding D11); time_limit (wall clock) is outside the model"},
     "C02": {"ready": True, "partial": PARTIAL_D1, "replay": mc_checks.replay,
             "suites": [mc("mc_paths", dict(collect_always=True, depth=(2, 4), caches=("full", "disabled"), staged=0.35, staged3=0.6), refenum=True)]},
     "C03": {"ready": True, "partial": PARTIAL_D1, "replay": mc_checks.replay,
-            "suites": [mc("mc_exhaustive", dict(depth=(2, 4), staged=0.25, p_link=0.3, p_fault=0.45, p_send=0.5), refenum=True, cross=mc_checks.COMBOS, n_quick=250)]},
+            "suites": [mc("mc_exhaustive", dict(depth=(2, 4), staged=0.25, p_link=0.3, p_fault=0.45, p_send=0.5), refenum=True, cross=mc_checks.COMBOS, n_quick=250, extra_gen=mc_checks.gen_staged_gate)]},
     "C07": {"ready": True, "partial": PARTIAL_D1, "replay": mc_checks.replay,
             "suites": [mc("mc_timers", dict(p_timer=0.45, p_send=0.25, p_local=0.05, p_cancel=0.25, p_once=0.35, same_timer_name=0.35, record=0.8,
                                             depth=(3, 5), acts=(1, 4), rules=(2, 5), locals=(1, 3), p_fault=0.05, caches=("disabled", "full")),
@@ -207,14 +208,15 @@ PROPS = {
                            nontrivial=lambda st: st["timers_fired"]),
                        py_suite.sim_twin]},
     "C09": {"ready": True, "replay": mc_checks.replay,
-            "suites": [mc("mc_rerun", dict(two_runs=1.0, staged=0.3, p_link=0.4, p_fault=0.3, p_crash=0.2, nodes=(2, 3), p_send=0.5)), snapshot_check(walk=0, routes=False, transparent=True)]},
+            "suites": [mc("mc_rerun", dict(two_runs=1.0, staged=0.3, p_link=0.4, p_fault=0.3, p_crash=0.2, nodes=(2, 3), p_send=0.5)), snapshot_check(walk=0, routes=False, transparent=True),
+                       lambda v, tier, seed: py_suite.run(v, tier, seed, n_quick=60, n_thorough=800), py_suite.restore_probe]},
     "C10": {"ready": True, "replay": mc_checks.replay, "partial": PARTIAL_D1,
             "suites": [mc("mc_bfs_dfs", dict(depth=(2, 4)), cross=[("dfs", "full"), ("bfs", "full"), ("dfs", "partial"), ("bfs", "partial"), ("dfs", "disabled"), ("bfs", "disabled")],
                           n_quick=200, extra_gen=mc_checks.gen_payload_twins)]},
     "C11": {"ready": True, "replay": mc_checks.replay, "partial": PARTIAL_D1,
             "suites": [mc("mc_cache_modes", dict(record=0.2, identical_msgs=0.5, depth=(2, 4)),
                           cross=[("dfs", "full"), ("dfs", "partial"), ("dfs", "disabled"), ("bfs", "full"), ("bfs", "disabled")],
-                          n_quick=200, extra_gen=lambda rng, tier: mc_checks.gen_crash_merge(rng, tier) + mc_checks.gen_payload_twins(rng, tier)), mc_checks.rand_cache_probe]},
+                          n_quick=200, extra_gen=lambda rng, tier: mc_checks.gen_crash_merge(rng, tier) + mc_checks.gen_payload_twins(rng, tier)), mc_checks.rand_cache_probe, py_suite.order_probe]},
     "C12": {"ready": True, "replay": mc_checks.replay,
             "suites": [mc("mc_fates", dict(p_fault=0.7, p_link=0.5, p_send=0.6, p_timer=0.1, nodes=(2, 3), procs=(2, 3), depth=(2, 4)),
                           refenum=True, nontrivial=lambda st: st["faults"] and st["multi_states"], extra_gen=mc_checks.gen_mc_link_matrix)]},
@@ -222,13 +224,14 @@ PROPS = {
             "suites": [lambda v, tier, seed: store_suite.run(v, tier, seed, only_timers=True),
                        mc("mc_timer_order", dict(p_timer=0.7, p_send=0.15, p_once=0.4, same_timer_name=0.1, p_mode=0.4, depth=(3, 5),
                                                  p_fault=0.05, staged=0.3, locals=(2, 4)), refenum=True, nontrivial=lambda st: st["blocked"],
-                          extra_gen=mc_checks.gen_payload_twins)]},
+                          extra_gen=mc_checks.gen_payload_twins),
+                       snapshot_check(walk=0, routes=False)]},
     "C14": {"ready": True, "replay": mc_checks.replay,
             "suites": [mc("mc_crash", dict(p_crash=1.0, nodes=(2, 3), procs=(2, 4), p_link=0.4, staged=0.5), refenum=True, extra_gen=mc_checks.gen_crash_then_heal,
                           nontrivial=lambda st: st["crash"] and st["multi_states"])]},
     "C16": {"ready": True, "replay": mc_checks.replay,
             "partial": "the union over start states is a theorem for the Disabled cache (runFromStates_disabled_concat) and for an exact shared cache with state-based predicates (runFromStates_ok_union); with path-dependent predicates and a shared cache the outcome depends on the hash order of equal-depth start states and is only observed",
-            "suites": [mc("mc_staged", dict(staged=1.0, staged3=0.5, p_crash=0.3, depth=(2, 4)), nontrivial=lambda st: st["staged"] and st["multi_states"])]},
+            "suites": [mc("mc_staged", dict(staged=1.0, staged3=0.5, p_crash=0.3, depth=(2, 4)), extra_gen=mc_checks.gen_staged_gate, nontrivial=lambda st: st["staged"] and st["multi_states"])]},
     "C20": {
         "ready": True,
         "suites": [lambda v, tier, seed: store_suite.run(v, tier, seed)],
